@@ -1,5 +1,6 @@
 import Driver.Basic
 import Driver.Store
+import Driver.Trav
 /-!
 Line-protocol driver: evaluates the Lean model's executable definitions on requests read from stdin,
 one response per line. Built as a `lean_exe` (imports nothing outside core/Std).
@@ -11,6 +12,9 @@ def respond (line : String) : String :=
   | some r => r
   | none =>
   match respondStore ws with
+  | some r => r
+  | none =>
+  match respondTrav ws with
   | some r => r
   | none => "bad-request"
 
